@@ -166,6 +166,30 @@ def gen_case(rng, cid):
             if absent:
                 ins[a][k] = [d, rng.choice(absent)]
                 c["edit"] = "wrong-position"
+        elif r < 0.29:
+            # one input carries a second dimension of one of its signature axes (often with no width to pad, so that
+            # nothing on the padding side looks at the array's position)
+            a = rng.randrange(nin)
+            d, p = rng.choice(ins[a])
+            others = [[q, dd] for q, dd in axd[bind[d]]["pos"] if q != p and dd not in inputs[a]["dims"]]
+            if others:
+                q, dd = rng.choice(others)
+                inp = inputs[a]
+                inp["dims"].insert(rng.randrange(len(inp["dims"]) + 1), dd)
+                inp["shape"].insert(inp["dims"].index(dd), plen(q, axd[bind[d]]["n"]))
+                size = 1
+                for s_ in inp["shape"]:
+                    size *= s_
+                if size <= 400:
+                    inp["flat"] = [rng.randint(-9, 9) for _ in range(size)]
+                    c["edit"] = "two-dims"
+                    if rng.random() < 0.6:
+                        c["call"]["boundary_width"] = NONE
+                        c["def"]["boundary_width"] = NONE
+                        c["call"]["pad_before_func"] = NONE
+                        c["def"]["pad_before_func"] = NONE
+                else:
+                    return gen_case(rng, cid)
         return c
 
 
@@ -315,7 +339,7 @@ def run(ctx):
             ctx.reject(classify(r, bad[r["id"]]), f"spec rejects record: {bad[r['id']]}", r)
     ctx.evaluations = len(recs)
     ctx.extra["records_by_route"] = {h: sum(1 for r in recs if r["how"] == h) for h in ("apply", "decorator", "hints")}
-    ctx.extra["edited_records"] = {e: sum(1 for r in recs if r["edit"] == e) for e in ("wrong-position", "arity")}
+    ctx.extra["edited_records"] = {e: sum(1 for r in recs if r["edit"] == e) for e in ("wrong-position", "arity", "two-dims")}
 
     def corrupt(r):
         o = r["out"]
